@@ -203,6 +203,22 @@ pub fn run(prop: &'static str, tier: &str) -> i32 {
         all.merge(a);
     }
 
+    // phase 5: object reuse - one builder building several tokens while being reconfigured, one parser
+    // parsing several tokens while being reconfigured / handed different keys: every authentic presentation
+    // must still be accepted with the original content
+    {
+        let accs = par_units(&protos, |p| {
+            let mut acc = Acc::default();
+            let obs = crate::props::reuse::all_for(*p);
+            crate::props::reuse::record(prop, *p, &obs, &[crate::props::reuse::Dim::RoundTrip], &mut acc);
+            acc.choice_points += obs.len() as u64;
+            acc
+        });
+        let a = Acc::merge_all(accs);
+        phases.push(json!({"phase": "object reuse (second build / reconfigured parser), authentic presentations", "executions": a.executions}));
+        all.merge(a);
+    }
+
     all.states = all.executions;
     if all.controls_ok == 0 {
         crate::report::machinery_error("no round trip succeeded at all: vacuous harness or unusable build");
@@ -224,6 +240,9 @@ pub fn run(prop: &'static str, tier: &str) -> i32 {
 }
 
 pub fn replay(prop: &'static str, case: &serde_json::Value) -> i32 {
+    if case.get("reuse_case").is_some() {
+        return crate::props::reuse::replay(prop, case, &[crate::props::reuse::Dim::RoundTrip]);
+    }
     let Ok(ic) = serde_json::from_value::<IssueCase>(case["issue"].clone()) else {
         crate::report::machinery_error("replay file has no `issue` case");
     };
